@@ -17,7 +17,7 @@ from topsim.core.instrument import Observation
 PIN = {}
 FUNCTIONS = [Config.parse_cluster_config, Config.parse_instrument_config, Config.parse_buffer_config, Config.__init__]
 META = {
-    'bounds': {'C16.unit': 'symbolic str (len <= 8) or symbolic int >= 1', 'C16.cluster/buffer numbers': 'unbounded ints (2 machines); every section parsed twice from one Config object',
+    'bounds': {'C16.unit': 'symbolic str (len <= 8) or symbolic int >= 1', 'C16.cluster/buffer numbers': 'unbounded ints (2 machines); every section parsed twice from one Config object, then once more after the unit attribute was changed',
                'C16.instrument (H2)': 'start, duration = unit x (0..30 / 1..30); units seconds, minutes, hours, misspelt, custom 3, 7, 49, 300, 600 (case-split, native)',
                'C16.instrument (S1)': 'unbounded ints, rational division (whole multiples make it exact: lemma L3)'},
     'outside_bounds': ['boolean or float units', 'non-integer rates (round() of a float product)', 'starts/durations that are not whole multiples of the unit'],
@@ -90,6 +90,17 @@ def cb_tag(unit, f0, f1, b0, b1, sysbw, hcap, hrate, ccap, crate):
     if (hot2[0].max_ingest_data_rate, cold2[0].max_data_rate, hot2[0].total_capacity, cold2[0].total_capacity) != \
             (hot[0].max_ingest_data_rate, cold[0].max_data_rate, hot[0].total_capacity, cold[0].total_capacity):
         return 'C16/second-parse-of-the-buffer-section-scales-again'
+    # the unit of the same Config object is changed afterwards (timestep_unit is a public attribute): every later parse
+    # uses the factor of the unit in force at that moment
+    unit3 = 'hours' if k != 3600 else 'minutes'
+    k3 = 3600 if k != 3600 else 60
+    c.timestep_unit = unit3
+    machines3, bw3 = c.parse_cluster_config()
+    hot3, cold3 = c.parse_buffer_config()
+    if machines3[0].cpu != f0 * k3 or machines3[1].bandwidth != b1 * k3 or bw3 != sysbw * k3:
+        return 'C16/cluster-section-keeps-the-factor-of-an-earlier-unit'
+    if hot3[0].max_ingest_data_rate != hrate * k3 or cold3[0].max_data_rate != crate * k3 or hot3[0].total_capacity != hcap:
+        return 'C16/buffer-section-keeps-the-factor-of-an-earlier-unit'
     return None
 
 
@@ -158,6 +169,10 @@ def _instr(uk, s, d, rate, demand, ingest):
     total2, pipelines2, obs2, max_ingest2 = c.parse_instrument_config('telescope')
     if (obs2[0].est, obs2[0].duration, obs2[0].ingest_data_rate, obs2[0].demand, total2, max_ingest2) != (ob.est, ob.duration, ob.ingest_data_rate, ob.demand, total, max_ingest):
         return 'C16/second-parse-of-the-instrument-section-scales-again'
+    c.timestep_unit = 'seconds'
+    total3, pipelines3, obs3, max_ingest3 = c.parse_instrument_config('telescope')
+    if (obs3[0].est, obs3[0].duration, obs3[0].ingest_data_rate) != (s * k, d * k, rate):
+        return 'C16/instrument-section-keeps-the-factor-of-an-earlier-unit'
     return None
 
 
